@@ -328,6 +328,53 @@ fn two_ids_leg(acc: &mut Acc) {
     }
 }
 
+/// Pass-through steps: the agreeing links record the same map as materials and as products (a
+/// review or sign-off step; also: nothing at all on either side), the dissenter differs in its
+/// products only. Whichever link is taken as the reference, the dissent is there.
+fn pass_through_leg(acc: &mut Acc) {
+    let f = fns();
+    let owner = keys::get("ed6");
+    let dir = util::fresh_dir("c07p");
+    for (bname, base) in [("materials = products = {a, d/b}", base_arts()), ("materials = products = {}", world::arts(&[]))] {
+        for what in ["path", "digest-byte", "algorithm", "extra-entry", "extra-entry-first", "missing-entry", "missing-first-entry", "empty", "second-algorithm-added", "digest-truncated"] {
+            // on the empty base only an added entry is a dissent
+            if base.is_empty() && !matches!(what, "extra-entry" | "extra-entry-first") {
+                continue;
+            }
+            let mut p = base.clone();
+            vary(&mut p, what);
+            if p == base {
+                continue;
+            }
+            for k in [2usize, 3] {
+                for dissenter in 0..k {
+                    for e in std::fs::read_dir(&dir).unwrap().flatten() {
+                        let _ = std::fs::remove_file(e.path());
+                    }
+                    for (i, key) in f.iter().take(k).enumerate() {
+                        let l = world::link("s", base.clone(), if i == dissenter { p.clone() } else { base.clone() });
+                        world::write(&dir, &world::link_file("s", key), &world::block_text(&world::sign_link(l, &[key])));
+                    }
+                    let lay = world::sign_layout(world::layout(vec![world::step("s", k as u32, &f[..k])], vec![], &f[..k], world::far_future()), &[owner]);
+                    acc.states += 1;
+                    acc.nontrivial += 1;
+                    for site in ["A", "C"] {
+                        for (script, verdict) in run_orders_at(&dir, &lay, acc, site) {
+                            acc.outcome(&format!("pass-through|{}", verdict.tag()));
+                            let w = || json!({"kind": "pass-through", "base": bname, "dissent_in_products": what, "links": k, "dissenter": dissenter, "site": site, "schedule": script});
+                            match &verdict {
+                                Verdict::Ok(_) => acc.violation(&format!("accepted-dissent:pass-through-step:{what}"), &format!("a step whose agreeing links record the same map as materials and products ({bname}) was accepted although one link's products differ ({what})"), w),
+                                Verdict::Panic(l, m) => acc.violation(&format!("panic:{l}"), m, w),
+                                Verdict::Err(_) => {}
+                            }
+                        }
+                    }
+                }
+            }
+        }
+    }
+}
+
 fn delegated_leg(acc: &mut Acc) {
     let (a, b, inner_f, owner) = (keys::get("ed1"), keys::get("ed2"), keys::get("ed5"), keys::get("ed6"));
     let dir = util::fresh_dir("c07d");
@@ -517,8 +564,9 @@ pub fn run(tier: Tier) -> i32 {
     }
     delegated_leg(&mut acc);
     two_ids_leg(&mut acc);
+    pass_through_leg(&mut acc);
     c.acc = acc;
-    c.rule = "state = vector of per-link variations (43 kinds, the last 14 for k = 2 only: none; the path of one entry re-spelled (blank / newline / NUL / slash appended, blank or ./ prepended, upper case) in a link that was read from text before it was signed; in materials or products: a second algorithm added with one of two values, other path, last / first digest byte, digest truncated by a byte / extended by a byte / of no bytes, other algorithm, second algorithm added, extra entry sorting last / first, missing last / first entry, empty map) for k authorised valid links, optionally plus a dissenting link by a key outside the key table or a tampered one; transition = change one link's variation; every state runs in_toto_verify for thresholds 2..min(k,3), with the step alone, next to a single-party step (before it, after it, after a threshold-0 step) and next to a second multi-party step whose links agree (before it, after it) under every permutation of the reference-link choice (site C); plus one functionary key under two ids with a link under each, one dissenting (8 variations x which id dissents x thresholds 2, 3 x every order at sites A and C); plus a delegated multi-party step (two functionaries, two-step sub-layouts) with a dissent at each of 6 places, 4 of them visible in the summaries; non-trivial = vectors that are not all equal".into();
+    c.rule = "state = vector of per-link variations (43 kinds, the last 14 for k = 2 only: none; the path of one entry re-spelled (blank / newline / NUL / slash appended, blank or ./ prepended, upper case) in a link that was read from text before it was signed; in materials or products: a second algorithm added with one of two values, other path, last / first digest byte, digest truncated by a byte / extended by a byte / of no bytes, other algorithm, second algorithm added, extra entry sorting last / first, missing last / first entry, empty map) for k authorised valid links, optionally plus a dissenting link by a key outside the key table or a tampered one; transition = change one link's variation; every state runs in_toto_verify for thresholds 2..min(k,3), with the step alone, next to a single-party step (before it, after it, after a threshold-0 step) and next to a second multi-party step whose links agree (before it, after it) under every permutation of the reference-link choice (site C); plus pass-through steps (the agreeing links record one map as materials and as products, or nothing on either side; 10 kinds of dissent in the products only; 2 and 3 links, each as the dissenter; every order at sites A and C); plus one functionary key under two ids with a link under each, one dissenting (8 variations x which id dissents x thresholds 2, 3 x every order at sites A and C); plus a delegated multi-party step (two functionaries, two-step sub-layouts) with a dissent at each of 6 places, 4 of them visible in the summaries; non-trivial = vectors that are not all equal".into();
     c.bound_completed = format!("complete variation vectors for {} (BFS reaches every vector)", bounds.join(", "));
     c.assume("all k links are validly signed by authorised keys of the key table; no rules (isolates C03)");
     c.finish()
@@ -528,6 +576,11 @@ pub fn replay(case: &Value) -> Value {
     if case["kind"] == "delegated" {
         let mut acc = Acc::new();
         delegated_leg(&mut acc);
+        return json!({"violation": acc.violations.keys().next()});
+    }
+    if case["kind"] == "pass-through" {
+        let mut acc = Acc::new();
+        pass_through_leg(&mut acc);
         return json!({"violation": acc.violations.keys().next()});
     }
     if case["kind"] == "one-key-two-ids" {
